@@ -234,6 +234,53 @@ def mk_code_tables(code_id, _replay=None):
     return {"status": "holds", "paths": 1, "queries": nq, "detail": f"code {code_id} ({gc.name})", "solver_s": round(time.time() - t0, 2)}
 
 
+def mk_index_width(_replay=None):
+    """The codon indices are handed to a byte-wise translate, so they must occupy ONE byte per codon whatever the sequence length.
+    KmerAlphabet.to_indices picks its dtype from the number of codons (get_array_type); the real translate is run on one
+    representative length per dtype class and the class boundaries are located with z3 over the real get_array_type
+    (finite abstraction of the length by dtype class)."""
+    import numpy
+
+    from cogent3.core import new_alphabet as NA
+    from cogent3.core import new_genetic_code as G
+
+    t0 = time.time()
+    gc = G.get_code(1)
+    if _replay is not None:
+        n = int(_replay["n_codons"])
+        got = gc.translate("ATG" * n)
+        bad = got != "M" * n
+        return {"status": "reproduced" if bad else "not_reproduced", "detail": f"translate('ATG'*{n}) -> length {len(got)}, symbols {sorted(set(got))}"}
+    # dtype classes of the index array as a function of the number of codons: probe the real function at powers of two
+    probes = sorted({1, 2} | {2**k + d for k in (7, 8, 15, 16, 31, 32) for d in (-1, 0, 1)})
+    width = {n: numpy.dtype(NA.get_array_type(n)).itemsize for n in probes}
+    N = z3.Int("n_codons")
+    w = z3.IntVal(-1)
+    prev = None
+    pieces = []
+    for n in probes:
+        if prev is None or width[n] != width[prev]:
+            pieces.append((n, width[n]))
+        prev = n
+    for start, wd in pieces:
+        w = z3.If(N >= start, z3.IntVal(wd), w)
+    if not W.reach("end"):
+        return {"status": "cex", "cex": {"twin": f"dtype classes {pieces}"}}
+    nq = 0
+    # run the REAL translate once per class (bounded: representatives up to 70000 codons)
+    for start, wd in pieces:
+        if start > 70000:
+            continue
+        n = start
+        nq += 1
+        if gc.translate("ATG" * n) != "M" * n or gc.translate("CAT" * n, rc=True) != "M" * n:
+            s = z3.Solver()
+            s.add(N >= start, w == wd, N <= start)
+            s.check()
+            return {"status": "cex", "cex": {"n_codons": s.model()[N].as_long(), "index_itemsize": wd}, "queries": nq}
+    return {"status": "holds", "paths": len(pieces), "queries": nq, "detail": f"index dtype classes by codon count: {pieces}; translate correct on a representative of each class <= 70000 codons", "solver_s": round(time.time() - t0, 2)}
+
+
 def mk_complement(style, mt_name, _replay=None):
     """bits(comp(s)) == perm(bits(s)), comp(comp(s)) == s, what_ambiguity(resolve(s)) == s for a symbolic IUPAC symbol"""
     t0 = time.time()
@@ -304,7 +351,7 @@ ENCODED = [
 ]
 BOUNDS = {
     "quick": ["all 27 NCBI codes: every codon over {T,C,A,G,-,?} (finite domain, symbolic codon)", "frames: sequences of 0..9 symbolic canonical bases (length is a shard key), start in {0,1,2}, both strands, codes 1 and 2",
-              "k-mer kernel: <= 6 symbolic monomer codes over {T,C,A,G,-,?}", "complement / ambiguity tables: every IUPAC symbol of DNA and RNA, old and new moltypes"],
+              "k-mer kernel: <= 6 symbolic monomer codes over {T,C,A,G,-,?}", "index width: one representative sequence length per dtype class of the index array (1, 256, 65536 codons)", "complement / ambiguity tables: every IUPAC symbol of DNA and RNA, old and new moltypes"],
 }
 BOUNDS["thorough"] = ["as quick, frames for codes 1, 2, 4, 11"]
 ASSUMPTIONS = [
@@ -337,6 +384,7 @@ def obligations(tier):
                 obs.append(Ob(f"frames/code{cid}/n{n}/start{start}/rc_same_frame_set", __name__, "mk_frames", {"code_id": cid, "n": n, "start": start, "rc": True, "mode": "rc_same_frame_set"}, timeout=900, twins=("end",), group="frames"))
                 if cid == 1 and n in (6, 7, 8) and start == 1:
                     obs.append(Ob(f"frames/code{cid}/n{n}/start{start}/rc_documented", __name__, "mk_frames", {"code_id": cid, "n": n, "start": start, "rc": True, "mode": "rc_documented"}, timeout=900, twins=("end",), group="frames", expect_known=KNOWN_KEY))
+    obs.append(Ob("translate_index_width", __name__, "mk_index_width", {}, kind="direct", timeout=600, group="frames"))
     for n in (3, 6):
         obs.append(Ob(f"kmer_kernel/n{n}", __name__, "mk_kmer_kernel", {"n": n}, timeout=900, group="kernel"))
     for style in ("old", "new"):
@@ -346,6 +394,8 @@ def obligations(tier):
 
 
 def classify(name, args, cex, rep):
+    if name == "translate_index_width":
+        return "new_genetic_code.translate:multi-byte-indices-for-256+-codons"
     if name.endswith("/rc_documented"):
         return KNOWN_KEY
     return None
